@@ -94,23 +94,27 @@ type txObs struct {
 	PayerAfter, GovAfter []byte
 	Before, After        []kvPair // block write set before / after
 	Probe                *outcome
+	Underflow            uint64 // planned engine gas above GasLimit: no probe was run
 	Walk                 *event.ExecuteNotify
 }
 
 // plan is the harness's own reading of the checks HandleInvokeTransaction makes before it runs the
-// script: does the script run, and with how much gas. (Only used to choose the gas of the probe;
-// the model recomputes it from the generated formulas and refuses a probe made with another gas.)
+// script (as of /repo 667fe5ca: both fee products overflow-checked): does the script run, and with
+// how much gas. Only used to choose the gas of the probe; the model recomputes it from the
+// generated formulas and refuses a probe made with another gas.
 func plan(tx *types.Transaction, height uint32, old uint64, codeGas uint64) (runs bool, gas uint64) {
 	code := tx.Payload.(*payload.InvokeCode).Code
 	sys := bytes.Equal(code, ninit.COMMIT_DPOS_BYTES) || height == 0
 	if sys || tx.GasPrice == 0 {
 		return true, tx.GasLimit
 	}
-	if old < neovm.MIN_TRANSACTION_GAS*tx.GasPrice {
+	minGas, ovf := common.SafeMul(neovm.MIN_TRANSACTION_GAS, tx.GasPrice)
+	if ovf || old < minGas {
 		return false, 0
 	}
 	clg := uint64(len(code)/neovm.PER_UNIT_CODE_LEN) * codeGas
-	if old < clg*tx.GasPrice || tx.GasLimit < clg {
+	clGas, ovf := common.SafeMul(clg, tx.GasPrice)
+	if ovf || old < clGas || tx.GasLimit < clg {
 		return false, 0
 	}
 	avail := tx.GasLimit
@@ -118,6 +122,34 @@ func plan(tx *types.Transaction, height uint32, old uint64, codeGas uint64) (run
 		avail = m
 	}
 	return true, avail - clg
+}
+
+// wrappedGas is the available gas computed with plain wrapping uint64 products (what the handler
+// did before 667fe5ca). A value above GasLimit can only come from a wrap: availableGasLimit -
+// codeLenGasLimit underflowed. Such transactions are "wrap suspects": the real handler is first
+// run on them in a child process with a time limit (an endless loop with ~2^64 gas never returns).
+func wrappedGas(tx *types.Transaction, old uint64, codeGas uint64) (runs bool, gas uint64) {
+	code := tx.Payload.(*payload.InvokeCode).Code
+	if tx.GasPrice == 0 || bytes.Equal(code, ninit.COMMIT_DPOS_BYTES) {
+		return true, tx.GasLimit
+	}
+	clg := uint64(len(code)/neovm.PER_UNIT_CODE_LEN) * codeGas
+	if old < neovm.MIN_TRANSACTION_GAS*tx.GasPrice || old < clg*tx.GasPrice || tx.GasLimit < clg {
+		return false, 0
+	}
+	avail := tx.GasLimit
+	if m := old / tx.GasPrice; avail > m {
+		avail = m
+	}
+	return true, avail - clg
+}
+
+func wrapSuspect(tx *types.Transaction, old uint64) bool {
+	if tx.TxType != types.InvokeNeo {
+		return false
+	}
+	runs, gas := wrappedGas(tx, old, neovm.UINT_INVOKE_CODE_LEN_GAS)
+	return runs && gas > tx.GasLimit
 }
 
 func probe(w *world, block *types.Block, tx *types.Transaction, ov *overlaydb.OverlayDB, gasTable map[string]uint64, gas uint64) *outcome {
@@ -176,6 +208,10 @@ func walk(w *world, block *types.Block, obs []*txObs) error {
 				return
 			}
 			if runs, gas := plan(tx, block.Header.Height, old, gasTable[neovm.UINT_INVOKE_CODE_LEN_NAME]); runs {
+				if gas > tx.GasLimit { // cannot happen with exact products (Props/C05.v c05_engine_gas_within_limit)
+					o.Underflow = gas
+					return
+				}
 				o.Probe = probe(w, block, tx, ov, gasTable, gas)
 			}
 		},
